@@ -16,6 +16,7 @@ var namePool = []string{
 	"a.test", "b.test", "c.example.com", "*.w.test", "x.w.test", "localhost", "app.localhost",
 	"10.0.0.1", "8.8.8.8", "node.ts.net", "h.internal", "*.h.internal", "bad name", "*.com",
 	"loaded.test", "y.wild.test", "Up.Ts.Net", "::1", "sub.*.test", "d.home.arpa",
+	"wiki.h.internal", "db.h.internal", "*.localhost",
 }
 
 func staticCertCovers(s string) bool {
@@ -136,6 +137,16 @@ func genCase(rng *core.Rand, k int) *kase {
 			c.names = append(c.names, nameInfo{s: s})
 		}
 	}
+	for _, pair := range [][2]string{{"*.h.internal", "wiki.h.internal"}, {"*.h.internal", "db.h.internal"}, {"*.localhost", "app.localhost"}, {"*.w.test", "x.w.test"}} {
+		hasW, hasN := false, false
+		for _, n := range c.names {
+			hasW = hasW || n.s == pair[0]
+			hasN = hasN || n.s == pair[1]
+		}
+		if hasW && !hasN && len(c.names) < 10 && rng.Chance(1, 2) {
+			c.names = append(c.names, nameInfo{s: pair[1]})
+		}
+	}
 	c.fillFlags()
 	ns := 1 + rng.Intn(4)
 	if rng.Chance(1, 30) {
@@ -253,7 +264,19 @@ func genCase(rng *core.Rand, k int) *kase {
 	catchAll := false
 	for i := 0; i < np; i++ {
 		var p policy
-		if rng.Chance(1, 4) && (!catchAll || rng.Chance(1, 25)) {
+		// a user policy whose only subject is a wildcard of the table: it covers some of the
+		// names the implicit internal / tailscale policy will hold, not all of them
+		var wild []int
+		for d := 1; d < len(c.names); d++ {
+			if strings.HasPrefix(c.names[d].s, "*.") && !usedSub[d] {
+				wild = append(wild, d)
+			}
+		}
+		if len(wild) > 0 && rng.Chance(1, 3) {
+			d := wild[rng.Intn(len(wild))]
+			usedSub[d] = true
+			p.subjects = []int{d}
+		} else if rng.Chance(1, 4) && (!catchAll || rng.Chance(1, 25)) {
 			catchAll = true
 		} else {
 			for _, d := range pickNames(2) {
@@ -337,6 +360,20 @@ func init() {
 	// HTTP only
 	mk([]string{"a.test"}, func(c *kase) {
 		c.servers = []server{{name: "s0", listen: []addr{{0, "", 80, 80}}, routes: []uroute{h(1)}}}
+	})
+	// user policy with a wildcard subject that covers one of two internal names (no issuer / ACME issuer):
+	// the implicit internal policy must still come first for the covered name
+	for _, iss := range []string{"", "a"} {
+		iss := iss
+		mk([]string{"wiki.h.internal", "localhost", "*.h.internal"}, func(c *kase) {
+			c.servers = []server{{name: "s0", listen: []addr{{0, "", 443, 443}}, routes: []uroute{h(1), h(2)}}}
+			c.policies = []policy{{subjects: []int{3}, issuers: iss}}
+		})
+	}
+	// … and with a second user policy in front that has more subjects than the implicit one
+	mk([]string{"wiki.h.internal", "localhost", "*.h.internal", "a.test", "b.test", "c.example.com"}, func(c *kase) {
+		c.servers = []server{{name: "s0", listen: []addr{{0, "", 443, 443}}, routes: []uroute{h(1), h(2), h(4)}}}
+		c.policies = []policy{{subjects: []int{4, 5, 6}, issuers: "a"}, {subjects: []int{3}, issuers: "a"}}
 	})
 	// catch-all with TLS connection policies (on-demand shape)
 	mk([]string{"a.test"}, func(c *kase) {
